@@ -56,6 +56,8 @@ func rulesC07(c *Ctx) {
 	bindNonNilRule(c, "C07.bindnil")
 	valueTextC07(c)
 	strconvRule(c, "C07.strconv")
+	c.Rule("C07.pure", "BindValue (and what it calls in the package) reads no mutable package-level state: which value a Go value binds to depends on that value and its type alone, not on what was bound earlier (a memo keyed by the printed form answers the string \"42\" with the integer bound for int64(42))")
+	pureRule(c, "C07.pure", "BindValue")
 	regexKindC07(c, tt)
 	paramNameC07(c)
 	s := p.newSCCP()
